@@ -597,10 +597,22 @@ def _wrap_negative(ctx, k: Arr, L):
 # ----------------------------------------------------------------------------------------------
 # assignment   box[key] = value
 # ----------------------------------------------------------------------------------------------
+def _trunc(v: Rat) -> Rat:
+    """value stored into an integer array: numpy truncates towards zero without a warning"""
+    if v.is_const():
+        return Rat.const(int(v.const_value()))
+    if scalar_kind(v) == 'int':
+        return v
+    return opaque_fn('trunc', v)
+
+
 def assign_index(ctx: Ctx, box: Box, key, value, lineno=None):
     old = box.cur
     key = expand_key(key, old.ndim)
     val = snap(value)
+    if old.kind == 'int' and val.kind == 'real':
+        v0 = val
+        val = Arr(v0.shape, lambda idx: _trunc(v0.at(idx)), 'int', tag=v0.tag)
     items = []
     for k in key:
         if is_arraylike(k) or isinstance(k, list):
